@@ -281,6 +281,9 @@ def _search(mon, case, logits, lens, conds, name):
         lm = LM.hashlm_class()(V, table, logits.dtype, raw=bool(lmc.get("raw")))
         if lmc.get("raw"):
             mon.cls("lm_unnormalised_scores")
+        if (lmc["seed"] + V + W) % 3 == 1:
+            lm.rebuild = True
+            mon.cls("lm_rebuilds_start_state_on_every_update_input")
         init = {"cond": torch.tensor(conds, dtype=torch.long)}
         beta, vm = lmc["beta"], lmc["valid_mixture"]
     _REC = steps = []
